@@ -5,3 +5,5 @@ import PraatModel.Tier
 import PraatModel.Crop
 import PraatModel.Proto
 import PraatModel.Run
+import PraatModel.Lemmas.Tier
+import PraatModel.Props.C06
